@@ -95,6 +95,19 @@ func genControl(t *rt.Tape, label string) mControl {
 				c.DescLines = append(c.DescLines, genWords(t, 1, 8, label+".dl"))
 			}
 		}
+		if t.Bool(1, 25, label+".hugedesc") {
+			// a control file that passes 64 KiB (and other round buffer sizes): long
+			// descriptions are rare but legal, nothing in the format bounds them
+			sub := t.Sub(label + ".hugedesc.text")
+			for i, n := 0, 400+sub.Intn(2200); i < n; i++ {
+				w := 1 + sub.Intn(9)
+				var ws []string
+				for j := 0; j < w; j++ {
+					ws = append(ws, words[sub.Intn(len(words))])
+				}
+				c.DescLines = append(c.DescLines, strings.Join(ws, " "))
+			}
+		}
 	}
 	for i, n := 0, t.Weighted([]int{4, 1, 1}, label+".nextra"); i < n; i++ {
 		c.Extra = append(c.Extra, [2]string{fmt.Sprintf("X-Extra-%d", i), genWords(t, 1, 3, label+".xv")})
